@@ -123,6 +123,7 @@ package iscp
 //@ define groupOK(d, g, w): g != nil && g.DataID != nil && g.DataPoints == w.DataPoints && *g.DataID == resolvedID(d, w.DataIDOrAlias)
 
 //@ func (*Downstream).wireToDownstreamChunk
+//@   stablebetweensections   // the function takes d.mu.RLock once per lookup; the alias tables only ever grow (assign* leave existing entries untouched, proved below), so an entry it has read stays what it was
 //@   props C03
 //@   nopanic
 //@   requires dps != nil && dps.StreamChunk != nil
